@@ -8,6 +8,8 @@ fixed by the statement) and the attached set.
 import desper
 from desper.logic.world import World
 
+from harness.reenter import h_reenter
+
 PROPERTY = 'C02'
 
 LOG = []        # (instance, event, args...) in real delivery order
@@ -380,6 +382,13 @@ HARNESSES = {
                              'detach-disabled', 'release-after-clear'],
                  required=['replace', 'remove', 'delete-immediate', 'clear-nonempty', 'release', 'probe',
                            'attach-disabled', 'observed-inside-on_add']),
+    # one lifecycle callback re-enters the world at one point (disables dispatching / acts on a bystander entity)
+    'reenter': dict(fn=h_reenter,
+                    nontrivial=['action-0-fired', 'action-1-fired', 'action-2-fired', 'action-3-fired',
+                                'postponed-by-callback', 'armed-callback-was-postponed'],
+                    required=['action-0-fired', 'action-1-fired', 'action-2-fired', 'action-3-fired',
+                              'postponed-by-callback', 'multi-create', 'multi-delete-immediate',
+                              'multi-delete-at-process', 'replace']),
 }
 TIERS = {
     'quick': [('life', dict(L=3)),
@@ -388,13 +397,15 @@ TIERS = {
               ('life', dict(L=2, flavour='falsy'), dict(required=['unusual-falsy', 'replace', 'remove', 'probe'])),
               ('life', dict(L=2, flavour='empty'), dict(required=['unusual-empty', 'replace', 'remove', 'probe'])),
               ('life', dict(L=3, flavour='all-equal', ids=(1,), classes=2, create_sets=2, auto=False),
-               dict(required=['unusual-all-equal', 'replace', 'remove', 'probe', 'release', 'attach-disabled']))],
+               dict(required=['unusual-all-equal', 'replace', 'remove', 'probe', 'release', 'attach-disabled'])),
+              ('reenter', dict(L=2))],
     'thorough': [('life', dict(L=4, ids=(1,), classes=5, create_sets=7, auto=True)),
                  ('life', dict(L=2, build=True, ids=(1, 2), create_sets=8, auto=False)),
                  ('life', dict(L=4, ids=(1, 2), classes=3, create_sets=3, auto=False)),
                  ('life', dict(L=5, ids=(1,), classes=2, create_sets=2, auto=False, reuse=False)),
                  ('life', dict(L=3, flavour='falsy')), ('life', dict(L=3, flavour='empty')),
-                 ('life', dict(L=4, flavour='all-equal', ids=(1,), classes=3, create_sets=3, auto=False))],
+                 ('life', dict(L=4, flavour='all-equal', ids=(1,), classes=3, create_sets=3, auto=False)),
+                 ('reenter', dict(L=3), dict(required=['armed-callback-was-postponed']))],
 }
 BUDGET_S = {'quick': 150, 'thorough': 1500}
 EXPLANATION = (
@@ -408,8 +419,9 @@ RULE = ('one evaluation = one feasible path (operation sequence); non-trivial = 
         'removal, immediate deletion, deletion at process, non-empty clear, a release of postponed callbacks, a probe '
         'delivery or a re-attachment')
 BOUNDS = {
-    'quick': 'L=3 operations; ids 1,2 and automatic; classes Hd, Hs(Hd), N, Ha(Controller), Ho; 8 component sets for create',
-    'thorough': 'L=4 with one id + automatic (all classes); L=4 with two ids (3 classes); L=5 with one id (2 classes)',
+    'quick': 'L=3 operations; ids 1,2 and automatic; classes Hd, Hs(Hd), N, Ha(Controller), Ho; 8 component sets for create; '
+             'reenter: built entity 1 (6 component sets) + optional bystander 9, 4 actions x armed on_add/on_remove, L=2 of 7 operations',
+    'thorough': 'L=4 with one id + automatic (all classes); L=4 with two ids (3 classes); L=5 with one id (2 classes); reenter L=3',
 }
 ASSUMPTIONS = [
     'the order of callbacks caused by ONE operation (several components of one entity, several entities at '
@@ -420,7 +432,12 @@ ASSUMPTIONS = [
     'an instance is attached to at most one entity at a time; callbacks do not raise (C04/C05)',
     'component instances may be falsy (__bool__ False), empty (__len__ 0) or all equal and hash-equal: flavours falsy / empty / all-equal',
     're-populating an id emptied while its deferred-deletion mark was pending is outside the claim (as in C01)',
+    'harness reenter: exactly one armed lifecycle callback per path performs one action the first time it runs; order of '
+    'callbacks inside one operation is free, so delivered callbacks are compared as multisets whenever dispatching is enabled '
+    '(sub-multiset while disabled) and every callback must see dispatch_enabled True when it starts',
 ]
-OUTSIDE = ['histories longer than L', 'processors (C07)', 'callbacks that mutate the world']
+OUTSIDE = ['histories longer than L', 'processors (C07)',
+           'callbacks that mutate the world, except the single re-entrant action of harness `reenter` (disable dispatching, or '
+           'add / remove / delete on a bystander entity); a callback changing the entity its own operation is working on']
 
 TECHNIQUE = 'bounded symbolic execution (symx/z3 path exploration) of operation histories with enable/disable interleavings, callback-log oracle'
